@@ -91,7 +91,7 @@ def run(c):
     q = c.quick()
     fam = "core" if q else "all"
     # 1. design check
-    vac = ("HandlerOtlp", "GDecode", "GAuth", "Export", "Consume", "Classify")
+    vac = ("Stub", "HandlerOtlp", "GDecode", "GAuth", "Export", "Consume", "Classify")
     for mx in ([4] if q else [3, 4, 7]):
         c.tlc_must_pass("OtlpHop", "IngressMC", cfg_text=mc_cfg(mx, fam if mx == 4 else "core"), coverage=True, timeout=900,
                         label="design_max%d" % mx, vacuous_ok=vac, workers=min(8, vlib.NCPU))
